@@ -3,6 +3,13 @@
 import json, sys
 
 CLAIMED = {
+ "C18": dict(
+   category="model_checking",
+   text="Explicit-state BFS to closure over the real ObjectTemplate controller (and a ClusterObjectTemplate variant): template t with a required source s1 and an optional source s2 of different kinds, template text from {renders both values, missing key, does not parse, foreign namespace, cluster-scoped kind with and without the template's namespace}; events with an edit budget: create / edit / delete each source, switch the template text, reconcile, delete the template, operator restart (dynamic cache lost), garbage collector; source variants: in the namespace, in another namespace, cluster-scoped kind (with / without the template's namespace set). Monitor on every pass: with valid inputs the pass succeeds and the target equals the reference rendering of the current source values; a missing optional source asks for a retry; a missing required source, unparsable template, out-of-namespace or cluster-scoped source or target => no write on the target and persisted Invalid=True; every effective write of a namespaced template hits a namespaced kind in its namespace (this is C11's ObjectTemplate clause); after every valid pass the real EnqueueWatchingObjects handler, fed by the real cache's owner sets, enqueues the template for an event on either source; after deletion the cache lists no watch of the template.",
+   design_ref="DESIGN.md §7 C18",
+   note="Trusted: kmodel; watch-event delivery replaced by 'any reconcile at any time' + the direct enqueue-handler test.",
+   technique="explicit-state model checking (BFS) with reference-rendering oracle and trace monitors",
+   engine="world"),
  "C19": dict(
    category="exploration",
    text="Structure-aware bounded-exhaustive enumeration at the seams where untrusted data enters, each case executed through the real code under recover(): (1) a managed object whose status takes every shape of the grammar {absent, null, \"\", \"x\", 0, 1.5, true, [], [s], {}, {k:s}} to depth 2, status.conditions lists whose condition fields each take every base shape (857 shapes quick, two-field deviations thorough), through a real ObjectSet pass (active and paused, with condition mappings and probes) and a real ObjectSetPhase pass; (2) the real ObjectTemplate controller with the same status shapes on its target object, 17 x 17 source item key/destination strings (empty, dots, unbalanced braces, indexes) and 11 template texts; (3) 93 package file sets through load -> validate -> render -> phase collection: object annotation values (condition-map, collision-protection, phase, CEL condition) incl. malformed ones, path shapes, manifest shapes, config values against an integer schema, malformed object documents. A panic is a violation identified by the first package-operator frame on its stack.",
